@@ -4,6 +4,8 @@ CONSTANTS MaxInst, MaxT, EmitVectors
 VARIABLES stage, cfg
 vars == <<stage, cfg>>
 Val(i, c, t, salt) == ((7 * i + 3 * c + 5 * t * t + t + 4 * salt * (t + i)) % 11) - 3
+PanelCD(lens, ncol, salt, cd) == [i \in DOMAIN lens |-> [c \in 1..ncol |->
+                                    [t \in 1..(IF c = 2 THEN lens[i] - cd ELSE lens[i]) |-> Val(i, c, t, salt)]]]
 Panel(lens, ncol, salt) == [i \in DOMAIN lens |-> [c \in 1..ncol |-> [t \in 1..lens[i] |-> Val(i, c, t, salt)]]]
 NoP == [L |-> 0, fill |-> 0, lo |-> 0, hi |-> 0, k |-> 1, w |-> 1, method |-> "", const |-> 0, iv |-> << >>, fit |-> 0, half |-> 0, adj |-> 0]
 Init == stage = "op" /\ cfg = [op |-> "", p |-> NoP, X |-> << >>]
@@ -14,13 +16,15 @@ PickOp ==
             /\ (f # 0 => L = 0)                       \* fitted on another, longer panel: only matters without a pad_length
             /\ (hf = 1 => (fill = 7 /\ f = 0))
             /\ cfg' = [op |-> "pad", p |-> [NoP EXCEPT !.L = L, !.fill = fill, !.fit = f, !.half = hf], X |-> Panel(lens, nc, salt)]
-       \/ \E lens \in LenSets, nc \in 1..2, salt \in 0..1, lh \in {<<0, 0>>, <<2, 0>>, <<3, 0>>, <<1, 3>>, <<2, 3>>}, f \in {0, 2} :
+       \/ \E lens \in LenSets, nc \in 1..2, salt \in 0..1, lh \in {<<0, 0>>, <<2, 0>>, <<3, 0>>, <<1, 3>>, <<2, 3>>, <<0, 2>>, <<0, 3>>}, f \in {0, 2} :
             /\ (f # 0 => lh = <<0, 0>>)                \* fitted on another panel with a shorter series
             /\ cfg' = [op |-> "truncate", p |-> [NoP EXCEPT !.lo = lh[1], !.hi = lh[2], !.fit = f], X |-> Panel(lens, nc, salt)]
        \/ \E lens \in LenSets, nc \in 1..2, salt \in 0..1, L \in 1..(MaxT + 1) :
             cfg' = [op |-> "interpolate", p |-> [NoP EXCEPT !.L = L], X |-> Panel(lens, nc, salt)]
-       \/ \E n \in 1..MaxInst, len \in 3..MaxT, nc \in 1..2, salt \in 0..1, o \in {"tabularize", "concat", "row_mean"} :
-            cfg' = [op |-> o, p |-> NoP, X |-> Panel([i \in 1..n |-> len], nc, salt)]
+       \/ \E n \in 1..MaxInst, len \in 3..MaxT, nc \in 1..2, salt \in 0..1, o \in {"tabularize", "concat", "row_mean"}, cd \in 0..1 :
+            \* cd = 1: the second variable was observed one time point less than the first (in every instance)
+            /\ (cd = 1 => (nc = 2 /\ o # "row_mean"))     \* the row-wise mean goes through a 3-d array: one length for all
+            /\ cfg' = [op |-> o, p |-> NoP, X |-> PanelCD([i \in 1..n |-> len], nc, salt, cd)]
        \/ \E n \in 1..MaxInst, len \in 3..(MaxT + 2), salt \in 0..2, k \in 1..(MaxT + 2) :
             k <= len /\ cfg' = [op |-> "paa", p |-> [NoP EXCEPT !.k = k], X |-> Panel([i \in 1..n |-> len], 1, salt)]
        \/ \E n \in 1..MaxInst, len \in 3..(MaxT + 2), salt \in 0..1, k \in 1..4 :
